@@ -405,11 +405,17 @@ func (r *mvRun) exec(op []interface{}) bool {
 		if !r.drainPicked() {
 			return false
 		}
-		if !s.Open() {
-			return true
+		// StoreToDisk consumes one handle.  Usually the driver opens an extra one for it; with "transfer" it hands over its
+		// ONLY handle, so that the backup's own Close (in delta mode: before the scan) is the one that retires the snapshot
+		// and starts the collection of whatever waits behind it.
+		transfer := len(op) > 4 && op[4] == true && r.handles[sn] == 1 && !d.Cfg.Hold // (held lists would park the workers the delta handshake needs)
+		if !transfer {
+			if !s.Open() {
+				return true
+			}
+			r.handles[sn]++
+			r.emit(tr.Ev{"e": "Open", "sn": sn, "ok": true}, true)
 		}
-		r.handles[sn]++
-		r.emit(tr.Ev{"e": "Open", "sn": sn, "ok": true}, true)
 		r.emit(tr.Ev{"e": "StoreBegin", "sn": sn, "delta": d.Cfg.Delta}, false)
 		os.RemoveAll(*mvBackupDir)
 		var once sync.Once
@@ -753,7 +759,7 @@ func mvRandom(t *tr.W, g *mvGen, length int) string {
 					busy = append(busy, []interface{}{"CloseSnap", open[rnd.Intn(len(open))]})
 				}
 			}
-			op = F("Store", open[rnd.Intn(len(open))], []int{1, 2, 8}[rnd.Intn(3)], busy)
+			op = F("Store", open[rnd.Intn(len(open))], []int{1, 2, 8}[rnd.Intn(3)], busy, rnd.Intn(2) == 0)
 		default:
 			if len(open) > 0 {
 				shards := []int{1, 2, 3, 4, 8, 16, 64, 2 * nk}[rnd.Intn(8)]
